@@ -92,7 +92,7 @@ def run_driver(variant, name, args, tmp, timeout=600, env=None):
 # ----------------------------------------------------------------------------- TLC
 def _tlc_cmd(module, cfg, metadir, workers, extra, java_opts):
     cmd = ['java', '-XX:+UseParallelGC'] + java_opts + ['-cp', TLA_JAR + ':' + CM_JAR,
-           'tlc2.TLC', '-workers', str(workers), '-metadir', metadir, '-config', cfg] + extra + [module]
+           'tlc2.TLC', '-noGenerateSpecTE', '-workers', str(workers), '-metadir', metadir, '-config', cfg] + extra + [module]
     return cmd
 
 
@@ -257,3 +257,81 @@ def finish(pid, violations, known_hits):
         sys.exit(1)
     log('OK property=%s' % pid)
     sys.exit(0)
+
+
+# ----------------------------------------------------------------------------- generic S+B check
+def trace_family_check(pid, tier, tmp, replay, *, variant, driver, driver_args, trace_module, trace_cfg,
+                       mc_module, mc_cfg, assume, sample_re, wit=None, extra_cov=None, mc_workers=12,
+                       reset_key='SReset', driver_timeout=1200, known_filter=None):
+    """Stage S (TLC on mc_module/mc_cfg, optional one-worker witness run) in parallel with stage B
+    (driver -> trace -> validation against trace_module).  Writes evidence and exits per contract."""
+    import threading
+    t0 = time.time()
+    build(variant, [driver])
+    violations, mc_res, wit_res, errs = [], {}, {}, []
+
+    def stage_s():
+        try:
+            mc_res.update(tlc_mc(mc_module, mc_cfg, tmp, workers=mc_workers, timeout=1500 if tier == 'thorough' else 500))
+        except Exception as e:  # noqa
+            errs.append(e)
+
+    def stage_w():
+        try:
+            r = tlc_mc(mc_module, wit[0], tmp, workers=1, timeout=600)
+            m = re.search(r'"WITNESSES",\s*\{([^}]*)\}', r['out'])
+            wit_res.update(seen=set(re.findall(r'"(\w+)"', m.group(1))) if m else set(), states=r['distinct'])
+        except Exception as e:  # noqa
+            errs.append(e)
+
+    ths = [threading.Thread(target=stage_s)] + ([threading.Thread(target=stage_w)] if wit else [])
+    for t in ths:
+        t.start()
+    trace = os.path.join(tmp, '%s.ndjson' % driver)
+    args = [trace] + list(driver_args)
+    if replay:
+        first = json.loads(open(replay).readline())
+        if 'seed' in first and 'scn' in first:
+            args = [trace, first['seed'], 1] + [a for a in driver_args[2:]] + [first['scn']]
+    rc, errlog = run_driver(variant, driver, args, tmp, timeout=driver_timeout)
+    if rc != 0:
+        for t in ths:
+            t.join()
+        raise Infra('%s exited with %s: %s' % (driver, rc, open(errlog, errors='replace').read()[-1500:]))
+    val = validate_trace(trace_module, trace_cfg, trace, tmp, timeout=1500)
+    for t in ths:
+        t.join()
+    if errs:
+        raise errs[0]
+    if not mc_res['ok']:
+        p = save_replay(pid, 'model_counterexample.txt', mc_res['out'].splitlines()[-200:])
+        violations.append({'replay': p, 'why': 'stage S: the specification violates %s (TLC counterexample saved)' % mc_res['violated']})
+    if wit:
+        missing = [w for w in wit[1] if w not in wit_res.get('seen', set())]
+        if missing:
+            raise Infra('vacuity guard: witnesses never reached in %s: %s' % (wit[0], missing))
+    known = []
+    for i, rej in enumerate(val['rejections']):
+        seg = rej.pop('segment')
+        k = known_filter(rej, seg) if known_filter else None
+        if k:
+            known.append(k)
+            continue
+        p = save_replay(pid, 'rejected_%d.ndjson' % i, seg)
+        why = ('invariant %s violated at' % rej['invariant']) if rej['invariant'] else 'no specification step matches'
+        violations.append({'replay': p, 'why': 'stage B: %s event %d of the execution: %s (after %s)' % (
+            why, rej['line_in_execution'], rej['first_unmatched'][:300], rej['last_matched'][:200])})
+    lines = open(trace).read().splitlines()
+    keep = [l for l in lines if re.match(sample_re, l)][:10]
+    cov = {'states': mc_res['distinct'] + wit_res.get('states', 0) + val['states'], 'transitions': mc_res['states'],
+           'traces_validated_against_impl': val['accepted'],
+           'samples': [{'events_of_one_execution': [json.loads(x) for x in keep]}],
+           'mc_configs': [mc_cfg] + ([wit[0]] if wit else []) + [trace_cfg], 'mc_distinct_states': mc_res['distinct'],
+           'mc_exhaustive_within_constants': bool(mc_res.get('completed')),
+           'witnesses_reached': sorted(wit_res.get('seen', [])),
+           'trace_executions': val['executions'], 'trace_events': val['lines'], 'trace_rejections': len(val['rejections']),
+           'build_variant': variant, 'exhaustive': False}
+    if extra_cov:
+        cov.update(extra_cov(lines))
+    write_evidence(pid, tier, 'model_checking', cov, time.time() - t0, len(violations), assume)
+    finish(pid, violations, sorted(set(known)))
